@@ -4,6 +4,7 @@ import LexVerif.Proof.WriteBinaryShape
 import LexVerif.Proof.WriteRadixFrac
 import LexVerif.Proof.WriteRadixIntText
 import LexVerif.Proof.WriteRadixRound
+import LexVerif.Proof.WriteRadixError
 import Mathlib.Tactic.SplitIfs
 /-!
 # C07 — generic-radix float output
@@ -118,7 +119,7 @@ section RadixFull
 open LexVerif.Model LexVerif.Model.WriteRadix LexVerif.Model.WriteRadixInt
 open LexVerif.Proof.WriteRadixF LexVerif.Proof.WriteRadixWF LexVerif.Proof.WriteRadixTerm
 open LexVerif.Proof.WriteRadixTermInt LexVerif.Proof.WriteRadixFrac LexVerif.Proof.WriteRadixInteger
-open LexVerif.Proof.WriteRadixRound
+open LexVerif.Proof.WriteRadixRound LexVerif.Proof.WriteRadixError
 open LexVerif.Model.WriteInt (Res)
 
 /-- binary32 or binary64 (radix.rs runs in the float's own type) -/
@@ -401,6 +402,46 @@ theorem radix_fraction_step_partial {f : Fmt} (hf : StdFmt f) {r : Nat} (hr36 : 
   have := Nat.div_add_mod (Proof.RoundNE.ival f (fmul f x (ofNat f r))) (unit f)
   rw [Nat.mul_comm] at this
   exact this
+
+/-- **accumulated error of the fraction digits (partial result toward the ulp clause).** Whatever the fraction loop
+returns is, for some `n ≥ 1`, the `n`-digit trace `d₁ … dₙ` of the iteration (`fracIter`), either as it stands or after
+the final round-up back-trace; and for that trace, in units of `2^-L` (`U = 2^L` is 1.0, `B = 2^(bias+3)` is half an
+ulp of a float below 64):
+
+    | fraction · rⁿ  −  (d₁…dₙ)ᵣ · U  −  fractionₙ |  ≤  B · (1 + r + … + rⁿ⁻¹)
+
+i.e. `|fraction − 0.d₁…dₙ − fractionₙ·r⁻ⁿ| < 2^(5−p)/(r−1)` — an ABSOLUTE error below `2^-48/(r−1)` (f64),
+`2^-19/(r−1)` (f32). Missing for `C07_radix_error_bound`: (1) for floats below 1 the RELATIVE version during the leading
+zero digits (there `round(x·r)` is the new fraction and the error is `≤ 2^-p` relative per step — this is where the
+hundreds of ulps come from); (2) the exit residual `fractionₙ ≤ deltaₙ ≈ delta₀·rⁿ` and the unit added by the round-up;
+(3) integer digits of floats `≥ 2^p` (zero padding); (4) turning the value distance into a pattern distance. -/
+theorem radix_fraction_error_partial (cf : Bool) {f : Fmt} (hf : StdFmt f) {r : Nat} (hr36 : r ≤ 36)
+    {fuel x delta : Nat} {acc : List Nat} {out : List Nat × List Nat × Bool} (hx : x ≤ one f)
+    (h : fracLoop cf f r (ofNat f r) fuel x delta acc = .ok out) :
+    ∃ n, 1 ≤ n ∧ n ≤ fuel ∧
+      (out = (((fracIter f r n x).1.map (digitToCharConst · r)).reverse ++ acc, [], false) ∨
+       out = backtrace cf r (((fracIter f r n x).1.map (digitToCharConst · r)).reverse ++ acc) []) ∧
+      (fracIter f r n x).1.length = n ∧
+      ofDigits r (fracIter f r n x).1 * unit f + Proof.RoundNE.ival f (fracIter f r n x).2
+        ≤ Proof.RoundNE.ival f x * r ^ n + errB f * geom r n ∧
+      Proof.RoundNE.ival f x * r ^ n
+        ≤ ofDigits r (fracIter f r n x).1 * unit f + Proof.RoundNE.ival f (fracIter f r n x).2 + errB f * geom r n := by
+  obtain ⟨n, h1, h2, h3⟩ := fracLoop_trace cf f r fuel x delta acc out h
+  obtain ⟨e1, _, _, e4, e5⟩ := fracIter_err hf.fok hr36 (hf.radix_lt hr36) n x hx
+  exact ⟨n, h1, h2, h3, e1, e4, e5⟩
+
+/-- the error constant is `2^-48` (f64) / `2^-19` (f32) of 1.0, and the geometric sum is `(rⁿ − 1)/(r − 1)` -/
+example : errB f64 * 2 ^ 48 = unit f64 ∧ errB f32 * 2 ^ 19 = unit f32 := by decide +kernel
+theorem geom_closed {r : Nat} (hr : 1 ≤ r) : ∀ n, geom r n * (r - 1) + 1 = r ^ n
+  | 0 => by simp [geom]
+  | n + 1 => by
+    obtain ⟨k, rfl⟩ : ∃ k, r = k + 1 := ⟨r - 1, by omega⟩
+    have ih := geom_closed hr n
+    simp only [Nat.add_sub_cancel] at ih ⊢
+    unfold geom
+    calc ((k + 1) ^ n + geom (k + 1) n) * k + 1 = (k + 1) ^ n * k + (geom (k + 1) n * k + 1) := by ring
+      _ = (k + 1) ^ n * k + (k + 1) ^ n := by rw [ih]
+      _ = (k + 1) ^ (n + 1) := by ring
 
 /-- on the repaired code the digit is even `< radix` (`fraction.as_u32()` never yields the radix itself) -/
 theorem radix_fraction_digit_lt {f : Fmt} (hf : StdFmt f) {r : Nat} (hr : r ∈ genericRadices) {x : Nat}
